@@ -236,45 +236,9 @@ func c07(c *engine.Ctx) {
 		gbResolveRO(c, f)
 	}
 	if f := c.MustFunc(gbM + "PopAsPointer"); f != nil {
-		g := f.Graph()
-		n := 0
-		var rets []*ast.ReturnStmt
-		engine.InspectBody(f, func(x ast.Node) {
-			if r, ok := x.(*ast.ReturnStmt); ok {
-				rets = append(rets, r)
-			}
-		})
-		guards := f.CallsTo(gbM+"PopAsPointer2", gbM+"resolvePointer")
-		for _, r := range rets {
-			rs := f.SiteOf(r)
-			ok, why := false, "return is not gated by the ro verdict of PopAsPointer2"
-			if rs != nil {
-				for _, gs := range guards {
-					vs := gbAssignedVars(f, gs)
-					if len(vs) != 2 || vs[1] == nil {
-						continue
-					}
-					res := g.CheckedGuard(gs, rs)
-					if res.OK && !res.OnTrue {
-						if id, isId := ast.Unparen(res.Cond).(*ast.Ident); isId && f.Info().ObjectOf(id) == vs[1] {
-							// returned pointer is the guard's pointer
-							if len(r.Results) == 1 && engine.ObjOf(f.Info(), r.Results[0]) == vs[0] && vs[0] != nil {
-								ok, why = true, "returns the resolved pointer only on the !ro branch; the ro branch panics"
-							} else {
-								why = "returned value is not the pointer resolved together with ro"
-							}
-						} else {
-							why = "ro verdict combined with another condition: `" + engine.ExprString(res.Cond) + "`"
-						}
-					} else if res.Why != "" {
-						why = res.Why
-					}
-				}
-			}
-			n++
-			c.Check("pop-guard", f.Name+" return", r.Pos(), ok, why)
-		}
-		c.Floor("pop-guard", n, 1)
+		ok, why := gbGuardedResolver(f, map[*engine.Fn]int{})
+		c.Check("pop-guard", f.Name+" return", f.Pos(), ok, why)
+		c.Floor("pop-guard", 1, 1)
 	}
 	if f := c.MustFunc(gbM + "PopAsPointer2"); f != nil {
 		ok := false
@@ -391,20 +355,68 @@ func c07(c *engine.Ctx) {
 		c.Check("persist-refusal", "who-may-call saveUnsavedObjectRecursively", token.NoPos, len(callers) > 0 && len(p.UnexpectedCallers(refs, allow)) == 0, "callers: "+join(callers))
 	}
 	if f := c.MustFunc(gbG + "refusePersistRealmHIV"); f != nil {
-		// a panic gated (true branch) by a comparison of the value's type with gConcreteRealmType
+		// the panic fires for both realm types, under nothing but hiv != nil && !isOriginRealmHIV(hiv)
 		n := 0
 		g := f.Graph()
+		info := f.Info()
 		for _, s := range f.CallsTo("builtin.panic") {
 			n++
-			ok := false
-			for _, gt := range g.Gates(s) {
-				if gt.OnTrue && engine.MentionsName(gt.Cond, "gConcreteRealmType") && engine.MentionsName(gt.Cond, "gConcreteRealmPtrType") {
-					if len(engine.Conjuncts(gt.Cond, token.LAND)) == 1 {
-						ok = true
+			covered := map[string]bool{}
+			extra := ""
+			typeName := func(e ast.Expr) string {
+				if id, ok := ast.Unparen(e).(*ast.Ident); ok && (id.Name == "gConcreteRealmType" || id.Name == "gConcreteRealmPtrType") {
+					if v, isV := info.ObjectOf(id).(*types.Var); isV && v.Parent() == v.Pkg().Scope() {
+						return id.Name
 					}
 				}
+				return ""
 			}
-			c.Check("persist-refusal", f.Name+" panic", s.Pos(), ok, "panic must fire for both the concrete realm type and its pointer type, not conjoined with other conditions")
+			// disjunction of equalities against the two realm types; returns false if e is not one
+			var eqDisj func(e ast.Expr, into map[string]bool) bool
+			eqDisj = func(e ast.Expr, into map[string]bool) bool {
+				bx, ok := ast.Unparen(e).(*ast.BinaryExpr)
+				if !ok {
+					return false
+				}
+				if bx.Op == token.LOR {
+					return eqDisj(bx.X, into) && eqDisj(bx.Y, into)
+				}
+				if bx.Op == token.EQL {
+					if nm := typeName(bx.X) + typeName(bx.Y); nm != "" {
+						into[nm] = true
+						return true
+					}
+				}
+				return false
+			}
+			for _, ft := range gbFactsOf(g.Gates(s)) {
+				if x, isNilHolds, ok := gbIsNilCmp(ft); ok && !isNilHolds && gbIsParam(f, engine.ObjOf(info, x)) {
+					continue
+				}
+				if call, ok := gbFactCall(ft); ok && !ft.Pos && gbCalleeName(info, call) == gbG+"isOriginRealmHIV" {
+					continue
+				}
+				if ft.Pos && eqDisj(ft.E, covered) {
+					continue
+				}
+				if extra == "" {
+					extra = engine.ExprString(ft.E)
+				}
+			}
+			// enclosing case clause of a tagged switch: tag ∈ {values}
+			for _, v := range gbEnclosingCaseValues(f, s.Pos()) {
+				if nm := typeName(v); nm != "" {
+					covered[nm] = true
+				} else if extra == "" {
+					extra = "case " + engine.ExprString(v)
+				}
+			}
+			ok := covered["gConcreteRealmType"] && covered["gConcreteRealmPtrType"] && extra == ""
+			why := "panic must fire for both the concrete realm type and its pointer type, not conjoined with other conditions"
+			if extra != "" {
+				why += "; additionally depends on `" + extra + "`"
+			}
+			c.Check("persist-refusal", f.Name+" panic", s.Pos(), ok, why)
 		}
 		c.Floor("persist-refusal-panic", n, 1)
 	}
@@ -443,18 +455,31 @@ func gbWriteGuard(f *engine.Fn, target *engine.Site, e ast.Expr) (bool, string) 
 	d := gbCollectDefs(f)
 	ch := d.roots(e)
 	why := "no write guard (PopAsPointer / resolvePointer+ro / IsReadonly with panicking branch) on the value `" + engine.ExprString(e) + "` dominates this site"
-	// kind 1: PopAsPointer (panics internally)
-	for _, gs := range f.CallsTo(gbM + "PopAsPointer") {
+	// kind 1: a guarded pointer resolver (PopAsPointer, or any helper computed to return the
+	// resolved pointer only after the ro verdict was tested with a panicking branch)
+	memo := map[*engine.Fn]int{}
+	for _, gs := range f.Calls() {
+		fo, isF := gs.Callee.(*types.Func)
+		if !isF || gs.Deferred {
+			continue
+		}
+		h := f.Prog.FnOf(fo)
+		if h == nil || !strings.HasPrefix(h.Name, gbM) {
+			continue
+		}
+		if okR, _ := gbGuardedResolver(h, memo); !okR {
+			continue
+		}
 		inExpr := e.Pos() <= gs.Node.Pos() && gs.Node.End() <= e.End()
 		if !inExpr && !g.Dominates(gs, target) {
 			continue
 		}
 		if inExpr {
-			return true, "pointer obtained from PopAsPointer (panics on readonly)"
+			return true, "pointer obtained from " + h.Name + " (panics on readonly)"
 		}
 		for _, v := range gbAssignedVars(f, gs) {
 			if v != nil && ch.objs[v] {
-				return true, "derived from PopAsPointer result `" + v.Name() + "` (panics on readonly)"
+				return true, "derived from " + h.Name + " result `" + v.Name() + "` (panics on readonly)"
 			}
 		}
 	}
@@ -869,48 +894,33 @@ func gbConstructPanic(c *engine.Ctx, f *engine.Fn) {
 	n := 0
 	for _, s := range f.CallsTo("builtin.panic") {
 		n++
-		ok, why := false, "panic is not gated by a sole `declaredPkgID != alloc.currentRealmID` comparison"
-		for _, gt := range g.Gates(s) {
-			b, isB := ast.Unparen(gt.Cond).(*ast.BinaryExpr)
-			if isB && b.Op == token.NEQ && gt.OnTrue && (engine.MentionsName(b.X, "currentRealmID") != engine.MentionsName(b.Y, "currentRealmID")) {
-				ok, why = true, "panics whenever the type's declaring realm differs from the allocator's current realm"
+		neq, extra := false, ""
+		for _, ft := range gbFactsOf(g.Gates(s)) {
+			if x, isNilHolds, ok := gbIsNilCmp(ft); ok {
+				if o := engine.ObjOf(info, x); !isNilHolds && o != nil && (gbIsParam(f, o) || gbIsRecv(f, o)) {
+					continue
+				}
 			}
-		}
-		c.Check("construct-panic", f.Name+" panic", s.Pos(), ok, why)
-	}
-	c.Floor("construct-panic", n, 1)
-	// early returns: allowed gate atoms
-	engine.InspectBody(f, func(x ast.Node) {
-		r, ok := x.(*ast.ReturnStmt)
-		if !ok {
-			return
-		}
-		st := f.SiteOf(r)
-		if st == nil {
-			return
-		}
-		for _, gt := range g.Gates(st) {
-			if !gt.OnTrue {
+			if call, ok := gbFactCall(ft); ok && ft.Pos && gbCalleeName(info, call) == gbG+"(PkgID).IsRealmPkg" {
 				continue
 			}
-			for _, a := range engine.Conjuncts(gt.Cond, token.LOR) {
-				okA := false
-				switch y := ast.Unparen(a).(type) {
-				case *ast.BinaryExpr:
-					if y.Op == token.EQL && isNil(y.Y) {
-						if o := engine.ObjOf(info, y.X); o != nil && (gbIsParam(f, o) || gbIsRecv(f, o)) {
-							okA = true
-						}
-					}
-				case *ast.UnaryExpr:
-					if call, isC := ast.Unparen(y.X).(*ast.CallExpr); isC && y.Op == token.NOT && gbCalleeName(info, call) == gbG+"(PkgID).IsRealmPkg" {
-						okA = true
-					}
-				}
-				c.Check("construct-panic", f.Name+" early return on `"+gbAtomShape(a)+"`", r.Pos(), okA, "checkConstructionTime may skip only for nil type/allocator or a type not declared in a realm; found `"+engine.ExprString(a)+"`")
+			if a, b, eq, ok := gbEq(ft); ok && !eq && (engine.MentionsName(a, "currentRealmID") != engine.MentionsName(b, "currentRealmID")) {
+				neq = true
+				continue
+			}
+			if extra == "" {
+				extra = engine.ExprString(ft.E)
 			}
 		}
-	})
+		why := "panics whenever a realm-declared type's declaring realm differs from the allocator's current realm"
+		if !neq {
+			why = "panic is not reached under `declaredPkgID != alloc.currentRealmID`"
+		} else if extra != "" {
+			why = "the construction-time panic additionally depends on `" + extra + "` (may skip only for nil type/allocator or a type not declared in a realm)"
+		}
+		c.Check("construct-panic", f.Name+" panic", s.Pos(), neq && extra == "", why)
+	}
+	c.Floor("construct-panic", n, 1)
 }
 
 func gbIsRecv(f *engine.Fn, o types.Object) bool {
@@ -1325,4 +1335,123 @@ func gbReadonlyFalseTable(c *engine.Ctx, p *engine.Prog) {
 		})
 		c.Check("readonly-exemptions", f.Name+" only forwards", f.Pos(), all && n >= 1, "IsReadonly may only return isReadonly(tv, ownPkgID)")
 	}
+}
+
+// gbGuardedResolver: h returns a PointerValue only after the ro verdict of
+// resolvePointer/PopAsPointer2 was tested (sole `ro` condition, panicking side),
+// or forwards the result of another guarded resolver. memo: 1 yes, 2 no, 3 busy.
+func gbGuardedResolver(h *engine.Fn, memo map[*engine.Fn]int) (bool, string) {
+	switch memo[h] {
+	case 1:
+		return true, "guarded resolver"
+	case 2, 3:
+		return false, "not a guarded resolver"
+	}
+	memo[h] = 3
+	res := func(ok bool, why string) (bool, string) {
+		if ok {
+			memo[h] = 1
+		} else {
+			memo[h] = 2
+		}
+		return ok, why
+	}
+	if h.Type.Results == nil || len(h.Type.Results.List) != 1 || len(h.Type.Results.List[0].Names) > 1 {
+		return res(false, "does not return a single pointer value")
+	}
+	if t := h.Info().TypeOf(h.Type.Results.List[0].Type); t == nil || engine.TypeName(t) != "gnovm/pkg/gnolang.PointerValue" {
+		return res(false, "does not return a PointerValue")
+	}
+	g := h.Graph()
+	info := h.Info()
+	d := gbCollectDefs(h)
+	var rets []*ast.ReturnStmt
+	engine.InspectBody(h, func(x ast.Node) {
+		if r, ok := x.(*ast.ReturnStmt); ok {
+			rets = append(rets, r)
+		}
+	})
+	if len(rets) == 0 {
+		return res(false, "no return")
+	}
+	calleeFn := func(call *ast.CallExpr) *engine.Fn {
+		if s := h.SiteOf(call); s != nil {
+			if fo, ok := s.Callee.(*types.Func); ok {
+				return h.Prog.FnOf(fo)
+			}
+		}
+		return nil
+	}
+	for _, r := range rets {
+		if len(r.Results) != 1 {
+			return res(false, "bare return")
+		}
+		rs := h.SiteOf(r)
+		e := ast.Unparen(r.Results[0])
+		// (b) forwards another guarded resolver (directly or through a single-definition local)
+		fwd := e
+		if id, ok := e.(*ast.Ident); ok {
+			if o := info.ObjectOf(id); o != nil && len(d.defs[o]) == 1 {
+				fwd = ast.Unparen(d.defs[o][0])
+			}
+		}
+		if call, ok := fwd.(*ast.CallExpr); ok {
+			if cf := calleeFn(call); cf != nil && cf != h && strings.HasPrefix(cf.Name, gbM) {
+				if okF, _ := gbGuardedResolver(cf, memo); okF {
+					continue
+				}
+			}
+		}
+		// (a) v, ro := resolvePointer/PopAsPointer2(...); if ro { panic }; return v
+		okA, why := false, "return is not gated by the ro verdict of PopAsPointer2/resolvePointer"
+		if rs != nil {
+			for _, gs := range h.CallsTo(gbM+"PopAsPointer2", gbM+"resolvePointer") {
+				vs := gbAssignedVars(h, gs)
+				if len(vs) != 2 || vs[1] == nil || vs[0] == nil {
+					continue
+				}
+				if engine.ObjOf(info, e) != vs[0] {
+					why = "returned value is not the pointer resolved together with ro"
+					continue
+				}
+				cg := g.CheckedGuard(gs, rs)
+				if !cg.OK {
+					why = cg.Why
+					continue
+				}
+				var fs []gbFact
+				gbSplitFact(cg.Cond, cg.OnTrue, &fs)
+				if len(fs) == 1 {
+					if id, isId := ast.Unparen(fs[0].E).(*ast.Ident); isId && info.ObjectOf(id) == vs[1] && !fs[0].Pos {
+						okA = true
+						continue
+					}
+				}
+				why = "ro verdict combined with another condition: `" + engine.ExprString(cg.Cond) + "`"
+			}
+		}
+		if !okA {
+			return res(false, why)
+		}
+	}
+	return res(true, "returns the resolved pointer only on the !ro side; the ro side panics")
+}
+
+// gbEnclosingCaseValues: the case values of the innermost tagged-switch clause containing pos.
+func gbEnclosingCaseValues(f *engine.Fn, pos token.Pos) []ast.Expr {
+	var out []ast.Expr
+	ast.Inspect(f.Body, func(n ast.Node) bool {
+		sw, ok := n.(*ast.SwitchStmt)
+		if !ok || sw.Tag == nil {
+			return true
+		}
+		for _, cl := range sw.Body.List {
+			cc := cl.(*ast.CaseClause)
+			if cc.Pos() <= pos && pos < cc.End() && cc.List != nil {
+				out = cc.List
+			}
+		}
+		return true
+	})
+	return out
 }
